@@ -345,6 +345,22 @@ def run_special(arg):
                 if got != (ec, q, atom):
                     viols.append((f"C08:added-label:{'demoted-element' if name in ('PH2', 'PH', 'HD') else 'new-label'}", f"after add_known_pseudoelements(['Qq','P','D']): Species({name!r}) has (element_count, charge, is_atom) = {got}, expected {(ec, q, atom)}", {"config": cfgname, "name": name}))
             Species.reset()
+            # a configured symbol that CONTAINS an earlier-listed multi-letter symbol (an isotope written as its own
+            # element: He3 next to He, listed after it): longest symbol wins, whatever the order of the list
+            for order in (["e", "H", "He", "He3", "C", "O"], ["e", "H", "He3", "He", "C", "O"]):
+                Species.set_known_elements(list(order))
+                Species.set_known_pseudoelements(["CR"])
+                for name, ec, q in (("He3", {"He3": 1}, 0), ("He3+", {"He3": 1}, 1), ("He3H+", {"He3": 1, "H": 1}, 1), ("He", {"He": 1}, 0), ("HeH+", {"He": 1, "H": 1}, 1), ("He2", {"He": 2}, 0)):
+                    n += 1
+                    try:
+                        sp = Species(name)
+                        got = (dict(sp.element_count), sp.charge)
+                    except Exception as e:
+                        viols.append((f"C08:contained-symbol:raises", f"elements {order}: Species({name!r}) raises {e!r}", {"config": cfgname, "name": name}))
+                        continue
+                    if got != (ec, q):
+                        viols.append((f"C08:contained-symbol", f"elements {order}: Species({name!r}) has (element_count, charge) = {got}, expected {(ec, q)} (longest configured symbol wins)", {"config": cfgname, "name": name}))
+                Species.reset()
     return cfgname, n, viols
 
 
